@@ -4,6 +4,7 @@ import (
 	"context"
 	"errors"
 	"fmt"
+	"net"
 	"runtime/pprof"
 	"sort"
 	"strings"
@@ -238,4 +239,92 @@ func bareMatrix(c *vk.Ctx) {
 		}
 	}
 	c.Count("bare_handler_cells_run", int64(len(cells)))
+}
+
+// lateListener hands out connections through Accept even after Close was called on it (a connection that the accept
+// loop had already taken from the operating system when the acceptor was closed); once it is empty and closed, Accept fails.
+type lateListener struct {
+	ch     chan *wire.Conn
+	closed chan struct{}
+	once   sync.Once
+}
+
+func (l *lateListener) Accept() (net.Conn, error) {
+	select {
+	case c := <-l.ch:
+		return c, nil
+	default:
+	}
+	select {
+	case c := <-l.ch:
+		return c, nil
+	case <-l.closed:
+		// one more chance for a connection that arrives together with the close
+		select {
+		case c := <-l.ch:
+			return c, nil
+		case <-time.After(300 * time.Millisecond):
+			return nil, errors.New("scripted listener closed")
+		}
+	}
+}
+func (l *lateListener) Close() error   { l.once.Do(func() { close(l.closed) }); return nil }
+func (l *lateListener) Addr() net.Addr { return lateAddr{} }
+
+type lateAddr struct{}
+
+func (lateAddr) Network() string { return "scripted" }
+func (lateAddr) String() string  { return "late-listener" }
+
+// acceptedWhileClosing: the local side closes the acceptor at the moment a connection comes out of Accept. That
+// connection is never served for long — but its socket is closed, so that the peer sees the end.
+func acceptedWhileClosing(c *vk.Ctx) {
+	n := c.Pick(6, 40)
+	var wg sync.WaitGroup
+	for i := 0; i < n; i++ {
+		wg.Add(1)
+		go func(i int) {
+			defer wg.Done()
+			l := &lateListener{ch: make(chan *wire.Conn, 1), closed: make(chan struct{})}
+			var clients int32
+			acc := simplefixgo.NewAcceptor(l, simplefixgo.NewAcceptorHandlerFactory("35", []int{0, 1, 10}[i%3]), 2*time.Second, func(h simplefixgo.AcceptorHandler) {
+				atomic.AddInt32(&clients, 1)
+			})
+			served := make(chan struct{})
+			go func() { _ = acc.ListenAndServe(); close(served) }()
+			time.Sleep(time.Duration(5+i) * time.Millisecond)
+			conn := wire.NewConn(fmt.Sprintf("late-%d", i), false)
+			desc := "Acceptor.Close while a connection is coming out of Accept"
+			if i%2 == 0 {
+				acc.Close()
+				<-served
+				l.ch <- conn // the accept loop gets it after the acceptor was closed
+				desc += " (the connection is returned by Accept after Close)"
+			} else {
+				l.ch <- conn
+				acc.Close() // no time to serve it properly
+				desc += " (Close right after Accept returned the connection)"
+			}
+			closed := false
+			for w := 0; w < 1500 && !closed; w++ {
+				closed, _ = conn.Closed()
+				if !closed {
+					time.Sleep(2 * time.Millisecond)
+				}
+			}
+			c.Eval(vk.Hash64([]byte(desc), []byte{byte(i)}), true)
+			c.Count("connections_accepted_while_the_acceptor_closes", 1)
+			c.SetAdd("matrix_cells_reached", "acceptor/acceptor-close/connection-coming-out-of-accept")
+			if !closed {
+				c.Violate("C13/socket-not-closed/acceptor/acceptor-close/connection-coming-out-of-accept", fmt.Sprintf("%s: 3 s later net.Conn.Close has not been called on the accepted connection (the application was told about %d clients)", desc, atomic.LoadInt32(&clients)), map[string]interface{}{"case": desc, "index": i})
+			}
+			select {
+			case <-served:
+			case <-time.After(3 * time.Second):
+				c.Violate("C13/serve-did-not-return/acceptor/acceptor-close/connection-coming-out-of-accept", desc+": ListenAndServe has not returned 3 s after Acceptor.Close", map[string]interface{}{"case": desc, "index": i})
+			}
+			conn.Close()
+		}(i)
+	}
+	wg.Wait()
 }
